@@ -89,9 +89,14 @@ func ZZ_C02_H1() {
 		wire[i], wire[i+1] = w[0], w[1]
 	}
 	stream := zz.Choose("stream", 2) == 1
-	nsplit := zz.Range("nsplit", 1, zz.Param("SPLITS", 1))
+	nsplit := zz.Range("nsplit", 0, zz.Param("SPLITS", 1)) // 0 = byte-at-a-time delivery
 	var splits []int
 	prev := 0
+	if nsplit == 0 {
+		for i := 1; i < len(wire); i++ {
+			splits = append(splits, i)
+		}
+	}
 	for i := 0; i < nsplit; i++ {
 		s := zz.Range("split", prev+1, len(wire)-1)
 		splits = append(splits, s)
